@@ -13,9 +13,11 @@
   and what the entry points of `StrokeTessellator` make of the object's buffer before
   `StrokeBuilderImpl::new` borrows it (`prologueBuffer`) and leave in the object (`bufferAfter`).
   Kept apart from `StrokeAttrs.lean` (whose `AttrCache.read` assumes `buffer.len() = a.len() = b.len()`;
-  `BufCache` is the same pair of fields) so that the C08 model driver — which links the sweep model and
-  cannot import `StrokeFull.lean` (`Lyon.Tri` is declared twice) — can run it: checker family
-  `chk_stroke_attrs`.  `Model/Tess/ResetStrokeAttrs.lean` composes it with the complete stroker.
+  `BufCache` is the same pair of fields); needs `StrokeParts.lean` only.  Run by the checker family
+  `chk_stroke_attrs` of C08 on its own, and — composed with the complete stroker
+  (`Model/Tess/ResetStrokeAttrs.lean`, `Model/Tess/ResetStrokeFull.lean`) — by family `stroke_reuse:32`
+  (since the boxes / triangles of `Model/Geom/Intersect.lean` carry the prefix `Ix`, the sweep model
+  and `StrokeFull.lean` link into one driver).
 
   Mathlib-free.
 -/
